@@ -250,23 +250,23 @@ func NodePrintable(e *Expression) bool {
 	return true
 }
 
-// lemmaValidatedPrintable: a node that passed validation can be printed.
+// LemmaValidatedPrintable: a node that passed validation can be printed.
 //
-//@ func lemmaValidatedPrintable
+//@ func LemmaValidatedPrintable
 //@   lemma
 //@   props C13 C01
 //@   requires e != nil && ShapeV(e)
 //@   ensures  NodePrintable(e)
-func lemmaValidatedPrintable(e *Expression) {}
+func LemmaValidatedPrintable(e *Expression) {}
 
-// lemmaParsedPrintable: so can every node of a parser-built tree.
+// LemmaParsedPrintable: so can every node of a parser-built tree.
 //
-//@ func lemmaParsedPrintable
+//@ func LemmaParsedPrintable
 //@   lemma
 //@   props C01
 //@   requires ShapeP(e)
 //@   ensures  e != nil && NodePrintable(e)
-func lemmaParsedPrintable(e *Expression) {}
+func LemmaParsedPrintable(e *Expression) {}
 
 //@ func (Expression).String
 //@   props C01 C13
@@ -469,3 +469,7 @@ func ExprPost(r *Expression, left any, op Operator, right []any) bool {
 //@   decreases 2*verifspec.B2I(!LeafOp(op)) + verifspec.B2I(len(right) > 0)
 //@   ensures  ExprPost(result, left, op, right)
 //@   loop 0: rangeinv len(vals) == idx && verifspec.Forall(0, idx, func(i int) bool { e, ok := l[i].(*Expression); return ok && vals[i] == e })
+
+// FuzzyDistanceOf / BoostPowerOf: spec accessors for the operator-specific state.
+func FuzzyDistanceOf(e *Expression) int   { return e.fuzzyDistance }
+func BoostPowerOf(e *Expression) float64 { return e.boostPower }
